@@ -68,12 +68,16 @@ SameBrownian ==
 \* nesting of the in-place refinement seen by the coupling (C13 re-checked on the coupling's own grid)
 GridNested == E.lvl = 0 \/ (prevLvl # <<>> /\ CoarseAxis(E.ax) = prevLvl.ax /\ E.org = 2 * prevLvl.org - 1)
 
+Slice1OK(sl) == /\ Len(sl.slice) = Len(sl.single)
+                /\ \A k \in 1..Len(sl.single) : sl.slice[k] = SumSeq([i \in 1..k |-> sl.single[i]])
+Slices1OK == \A i \in 1..Len(E.slices1) : Slice1OK(E.slices1[i])
 LevelStep ==
     /\ More /\ E.e = "Level"
     /\ Judge(<< <<"Numeric", E.bad = 0>>,
                 <<"GridNested", E.bad # 0 \/ GridNested>>,
                 <<"Telescoping", E.bad # 0 \/ E.lvl = 0 \/ ~GridNested \/ Telescoping>>,
                 <<"Locality", E.bad # 0 \/ E.lvl = 0 \/ Locality>>,
+                <<"CouplingIsFunctionOfJumpAndUniform", E.bad # 0 \/ Slices1OK>>,
                 <<"CoarseIsPrevious", E.bad # 0 \/ CoarseIsPrevious>>,
                 <<"SameBrownian", E.bad # 0 \/ SameBrownian>> >>)
     /\ prevLvl' = E /\ ln' = ln + 1 /\ UNCHANGED <<tid, fin>>
